@@ -724,7 +724,11 @@ def check_case(ctx, ffi, lib, sig, kind, sc, lines, plans, obs=None):
         ctx.fail(case, "onerror was called although nothing failed")
     plans.append((case, "ok %s %d 0" % (obs["rlog"] or "-", obs["printed"])))
     # ---- slot packing (extern "Python" only)
-    if kind == "extern" and args and obs["received_args"] and all(obs["received_args"]):
+    addr_leak = any(a == "double _Complex" and (args[j + 1] in STRUCTS or args[j + 1] == "long double")
+                    for j, a in enumerate(args[:-1]))
+    # (finding class: a double _Complex followed by a by-reference argument is overwritten with that argument's
+    #  *address*, which the model cannot know -- no slot line then)
+    if kind == "extern" and args and obs["received_args"] and all(obs["received_args"]) and not addr_leak:
         toks, pos = [], 0
         alog = bytes.fromhex(obs["alog"])
         for j, t in enumerate(args):
